@@ -251,6 +251,13 @@ pub fn gen_sig(tape: &mut Tape, k: &SigKnobs) -> Sig {
             _ => Param::simple('S'),
         };
         let _ = i;
+        // attributes are orthogonal: any integer parameter may carry any subset of imm / hex / enum
+        let mut p = p;
+        if "SsUuCcb".contains(p.ch) && matches!(p.kind, PKind::Int { .. }) && tape.chance(1, 3) {
+            if tape.chance(1, 2) { p.hex = true; }
+            if tape.chance(1, 3) { p.imm = true; }
+            if tape.chance(1, 4) { p.enm = true; }
+        }
         params.push(p);
     }
     if k.arg0 && tape.chance(1, 2) {
